@@ -306,7 +306,7 @@ var def = pbt.Def[Case]{Name: "panic-isolated", Gen: gen, Run: judge, Journal: t
 
 func TestProp(t *testing.T) {
 	outerT = t
-	pbt.Check(t, run, def, 8000, 500000)
+	pbt.Check(t, run, def, 8000, 300000)
 }
 
 func TestReplay(t *testing.T) {
